@@ -622,7 +622,10 @@ retry_after_fb:
 
     // callback range, from last_key to range_end.
     // if last_key = range_end_key and range_end_ep = INCLUSIVE, callback range is empty
-    if (!(eep == scan_endpoint::INCLUSIVE && last_key == ekt)) { // NOLINT(*-simplify-boolean-expr)
+    // (outside the layer that holds the range end, ekt is only a sentinel: it
+    // says nothing about the range, even if a link tuple happens to equal it)
+    if (!(cmp_to_end == 0 && eep == scan_endpoint::INCLUSIVE && // NOLINT(*-simplify-boolean-expr)
+          last_key == ekt)) {
         if (bnv_cb(bn->get_version_ptr(), v_at_fb)) {
             return status::WARN_ABORTED_BY_USER;
         }
